@@ -49,6 +49,9 @@ enum Op {
     Version,
     Stats,
     Order,
+    /// `clone()` and then every reader on the clone: the copy is a snapshot of ONE moment (its listing, its names,
+    /// its count and its lookups describe the same rule set), and that moment lies within the call
+    CloneView,
 }
 
 impl Op {
@@ -68,6 +71,7 @@ impl Op {
             Op::Version => "version",
             Op::Stats => "get_statistics",
             Op::Order => "get_rules_by_salience",
+            Op::CloneView => "clone",
         }
     }
 }
@@ -119,6 +123,8 @@ enum Res {
     Version(u64),
     Stats { version: u64, total: usize, enabled: usize, disabled: usize, dist: Vec<(i32, usize)> },
     Order(Vec<usize>),
+    /// what the readers say on a fresh `clone()`: listing, sorted names, count, lookup of every name
+    CloneView { rules: Vec<RObs>, names: Vec<u8>, count: usize, gets: Vec<Option<RObs>> },
     Panicked(String),
 }
 
@@ -155,6 +161,11 @@ impl std::fmt::Display for Res {
                 write!(f, "stats(v{}, total {}, enabled {}, disabled {}, by-salience {:?})", version, total, enabled, disabled, dist)
             }
             Res::Order(v) => write!(f, "{:?}", v),
+            Res::CloneView { rules, names, count, gets } => {
+                let n: Vec<&str> = names.iter().map(|i| NAMES.get(*i as usize).copied().unwrap_or("<foreign>")).collect();
+                let g: Vec<String> = gets.iter().enumerate().map(|(i, r)| format!("{}:{}", NAMES[i], r.map(|r| r.to_string()).unwrap_or_else(|| "None".into()))).collect();
+                write!(f, "a copy with listing {} names {{{}}} count {} lookups [{}]", fmt_rules(rules), n.join(","), count, g.join(", "))
+            }
             Res::Panicked(p) => write!(f, "PANIC {}", p),
         }
     }
@@ -211,6 +222,17 @@ fn exec(kb: &KnowledgeBase, op: &Op) -> Res {
             Res::Stats { version: st.version, total: st.total_rules, enabled: st.enabled_rules, disabled: st.disabled_rules, dist }
         }
         Op::Order => Res::Order(kb.get_rules_by_salience()),
+        Op::CloneView => {
+            let c = kb.clone();
+            let mut names: Vec<u8> = c.get_rule_names().iter().map(|s| name_idx(s)).collect();
+            names.sort_unstable();
+            Res::CloneView {
+                rules: c.get_rules().iter().map(obs).collect(),
+                names,
+                count: c.rule_count(),
+                gets: NAMES.iter().map(|n| c.get_rule(n).as_ref().map(obs)).collect(),
+            }
+        }
     }
 }
 
@@ -395,6 +417,21 @@ impl Model {
                     Err("salience-order-indices")
                 }
             }
+            (Op::CloneView, Res::CloneView { rules, names, count, gets }) => {
+                let mut want_names: Vec<u8> = self.rules.iter().map(|r| r.n).collect();
+                want_names.sort_unstable();
+                if *rules != self.listing() {
+                    Err("clone-view:listing")
+                } else if *names != want_names {
+                    Err("clone-view:rule-names")
+                } else if *count != self.rules.len() {
+                    Err("clone-view:rule-count")
+                } else if gets.iter().enumerate().any(|(i, g)| *g != self.find(i as u8).map(|k| self.rules[k])) {
+                    Err("clone-view:lookup")
+                } else {
+                    Ok(())
+                }
+            }
             _ => Err("result-shape"),
         }
     }
@@ -519,6 +556,13 @@ fn gen_prog(s: &mut Src) -> Prog {
         *t = (0..n).map(|_| gen_conc_op(s, &sals, &mut id)).collect();
     }
     let sched_seed = s.below(256) as u64;
+    // drawn last (saved cases keep decoding): in one program in three a thread also takes a copy of the knowledge
+    // base somewhere in its sequence and reads the copy
+    if s.chance(1, 3) {
+        let t = s.below(3);
+        let at = s.below(threads[t].len() + 1);
+        threads[t].insert(at, Op::CloneView);
+    }
     Prog { setup, threads, sched_seed }
 }
 
